@@ -22,6 +22,7 @@ func c16(c *eng.Ctx, r *eng.Report) {
 		"R16.3 ECVRFVerify returns true only as the comparison of the recomputed challenge with the proof's c, after the proof decoded without error, and the message and key passed to hashToCurve are the function's own arguments; " +
 		"R16.4 the quality number is floor(ratio/step)+1 with the stake ratio clamped to 1, and qualification is `valueRatio < stakeRatio`; " +
 		"R16.7 the lottery output (the encoding of Gamma) is unique: ECVRFVerify accepts only after the decoded Gamma passed the prime-order-subgroup test, which multiplies by the group order l; " +
+		"R16.8 hashToCurve hashes the whole of the public key and of the message (Write/append of the parameter itself, no copy into a fixed-size buffer); " +
 		"R16.6 decodeProof cuts the proof into gamma|c|s with plain copies that tile bytes [0,80) exactly and writes nothing else into those buffers (no bit of the proof is masked away before verification). " +
 		"Not decided: uniqueness/soundness of the VRF, bit-flip rejection, the numeric range of qn under float rounding."
 	r.Assume = []string{"edwards25519 group arithmetic and SHA-512 are correct"}
@@ -31,6 +32,7 @@ func c16(c *eng.Ctx, r *eng.Report) {
 	c16Qn(c, r)
 	c16Verbatim(c, r)
 	c16Unique(c, r)
+	c16WholeMessage(c, r)
 }
 
 func c16Padding(c *eng.Ctx, r *eng.Report) {
@@ -268,7 +270,7 @@ func c16Verbatim(c *eng.Ctx, r *eng.Report) {
 // cofactor. (Finding F22: neither was done; fixed by the subgroup test.)
 func c16Unique(c *eng.Ctx, r *eng.Report) {
 	const rule = "R16.7"
-	r.Min(rule, 2)
+	r.Min(rule, 3)
 	fn := c.Func(edPkg, "ECVRFVerify")
 	p2h := c.Func("consensus/vrf", "VRFProof2Hash")
 	if !r.Anchor(fn != nil && p2h != nil, rule, "ed25519.ECVRFVerify / vrf.VRFProof2Hash") {
@@ -347,8 +349,118 @@ func c16Unique(c *eng.Ctx, r *eng.Report) {
 				usesIt = true
 			}
 		}
+		// …and the product is compared with the neutral element in full: its 32-byte encoding equals {1,0,…,0}
+		// (testing one coordinate only also accepts the order-2 point (0,−1))
+		full := false
+		for _, re := range eng.Returns(sg) {
+			bo, isB := eng.RetValue(re.Ret, 0).(*ssa.BinOp)
+			if !isB || bo.Op != token.EQL {
+				continue
+			}
+			for _, pr := range [][2]ssa.Value{{bo.X, bo.Y}, {bo.Y, bo.X}} {
+				enc, isU := pr[0].(*ssa.UnOp)
+				lit, isL := pr[1].(*ssa.UnOp)
+				if !isU || !isL {
+					continue
+				}
+				// enc is the buffer handed to ToBytes of the product
+				toBytes := false
+				for _, call := range callsNamed(sg, "ExtendedGroupElement).ToBytes") {
+					if call.Call.Args[1] == enc.X && strings.Contains(eng.Desc(call.Call.Args[0]), "GeScalarMult(") {
+						toBytes = true
+					}
+				}
+				// lit is a composite literal whose only element store is [0] = 1
+				one, other := false, false
+				if al, isA := lit.X.(*ssa.Alloc); isA {
+					for _, ref := range *al.Referrers() {
+						if ia, isIA := ref.(*ssa.IndexAddr); isIA {
+							for _, r2 := range *ia.Referrers() {
+								if st, isSt := r2.(*ssa.Store); isSt {
+									i, _ := eng.ConstInt(ia.Index)
+									v, _ := eng.ConstInt(st.Val)
+									if i == 0 && v == 1 {
+										one = true
+									} else if v != 0 {
+										other = true
+									}
+								}
+							}
+						}
+					}
+				}
+				if toBytes && one && !other {
+					full = true
+				}
+			}
+		}
+		r.Check(full, rule, "inPrimeOrderSubgroup:neutral", c.Pos(sg.Pos()), "l·P is compared with the neutral element through its full 32-byte encoding {1,0,…,0}", "the subgroup test no longer compares the full encoding of l·Gamma with the neutral element: a partial test (e.g. x == 0 only) also accepts the order-2 point (0,−1), so Gamma shifted by it passes for every even challenge and carries a different lottery output")
 		r.Check(okOrder && usesIt, rule, "inPrimeOrderSubgroup:order", c.Pos(sg.Pos()), "multiplies by l (little-endian bytes of 2^252+27742317777372353535851937790883648493) and compares with the neutral element", fmt.Sprintf("the subgroup test does not multiply by the group order (constant ok=%v, used=%v)", okOrder, usesIt))
 	}
+}
+
+// c16WholeMessage: the message and the key enter hash-to-curve whole — through
+// Write on the running hash (or an append), never through a copy into a
+// fixed-size buffer, which silently truncates: a proof would then verify for
+// every message sharing the retained prefix.
+func c16WholeMessage(c *eng.Ctx, r *eng.Report) {
+	const rule = "R16.8"
+	r.Min(rule, 1)
+	fn := c.Func(edPkg, "hashToCurve")
+	if !r.Anchor(fn != nil, rule, "ed25519.hashToCurve") {
+		return
+	}
+	why := ""
+	for _, name := range []string{"m", "pk"} {
+		var p *ssa.Parameter
+		for _, fp := range fn.Params {
+			if fp.Name() == name {
+				p = fp
+			}
+		}
+		if p == nil {
+			why = "parameter " + name + " is gone"
+			continue
+		}
+		whole, copied := false, false
+		var visit func(v ssa.Value, d int)
+		visit = func(v ssa.Value, d int) {
+			if d > 3 || v.Referrers() == nil {
+				return
+			}
+			for _, ref := range *v.Referrers() {
+				switch x := ref.(type) {
+				case *ssa.Call:
+					n := eng.CallName(&x.Call)
+					switch {
+					case x.Call.IsInvoke() && x.Call.Method.Name() == "Write":
+						whole = true
+					case n == "builtin:append":
+						whole = true
+					case n == "builtin:copy" && len(x.Call.Args) == 2 && x.Call.Args[1] == v:
+						copied = true
+					case strings.HasSuffix(n, "sha512.Sum512") || strings.HasSuffix(n, ".Write"):
+						whole = true
+					}
+				case *ssa.Slice:
+					if x.Low == nil && x.High == nil {
+						visit(x, d+1) // v[:] is still the whole of v
+					} else {
+						copied = true
+					}
+				case *ssa.ChangeType:
+					visit(x, d+1)
+				case *ssa.Convert:
+					visit(x, d+1)
+				}
+			}
+		}
+		visit(p, 0)
+		if copied || !whole {
+			why = fmt.Sprintf("%s does not enter the hash whole (written/appended whole=%v, sliced or copied into a buffer=%v)", name, whole, copied)
+		}
+	}
+	r.Check(why == "", rule, "hashToCurve:whole-input", c.Pos(fn.Pos()), "H = hash(suite ‖ 0x01 ‖ pk ‖ m) over the whole of pk and m", "hashToCurve: "+why+": bytes beyond the buffer are dropped, so a proof for a long message verifies for every message sharing its retained prefix (a bit flip in the dropped part goes unnoticed)")
 }
 
 func c16Qn(c *eng.Ctx, r *eng.Report) {
